@@ -252,7 +252,9 @@ func (rb *Buffer) Write(p []byte) (n int, err error) {
 // WriteByte writes one byte into buffer.
 func (rb *Buffer) WriteByte(c byte) error {
 	if rb.Available() < 1 {
-		rb.grow(1)
+		// grow takes the required total capacity (as in Write), not the number of extra bytes:
+		// grow(1) left a full ring of 4 KiB or more at its size and the store below ran past it
+		rb.grow(rb.size + 1)
 	}
 	rb.buf[rb.w] = c
 	rb.w++
